@@ -134,3 +134,18 @@ def gen_ids(rng, n):
 
 def impl_valid(case):
     return _valid_id(case["s"])
+
+
+def impl_legacy_doc(case):
+    """a pre-0.3 composeinfo document carries date/type/respin only inside the id: what does loading it give?"""
+    import json
+    import productmd.composeinfo as CI
+    doc = {"header": {"version": case.get("version", "0.2")},
+           "payload": {"compose": {"id": case["s"], "type": "production"},
+                       "product": {"name": "N", "version": "1", "short": "N"}, "variants": {}}}
+    ci = CI.ComposeInfo()
+    try:
+        ci.loads(json.dumps(doc))
+    except EXC as e:
+        return exc_result(e)
+    return ["ok", [ci.compose.date, ci.compose.type, ci.compose.respin]]
